@@ -359,6 +359,66 @@ func runLaw(lc LawCase, r *runlog.R) error {
 			return fmt.Errorf("X.Merge(copy of X, %v) changed X:\n got  %s\n want %s", lc.Policy, canon.Show(got), canon.Show(want))
 		}
 	}
+	// 2b. under every policy, merging a config into itself (the same pointer, or a config that shares a section
+	// with it by SetChild) gives what merging an equal copy gives: the model's merge of X into X
+	if lc.X.K == "obj" {
+		m := &model.Node{Kind: "cont"}
+		model.MergeCont(model.Default, nil, m, model.FromTree(lc.X))
+		model.MergeCont(lc.Policy, nil, m, model.FromTree(lc.X))
+		wantSelf := m.Reify()
+		c, _ := ucfg.NewFrom(lc.X.Go())
+		if err := uc.Safe("Merge", func() error { return c.Merge(c, opts...) }); err != nil {
+			return fmt.Errorf("X.Merge(X) (same pointer, %v): %v", lc.Policy, err)
+		}
+		got, err := uc.Dump(c)
+		if err != nil {
+			return err
+		}
+		if !canon.EqualSplit(got, wantSelf) {
+			return fmt.Errorf("X.Merge(X) (same pointer, %v) differs from merging an equal copy:\n got  %s\n want %s", lc.Policy, canon.String(canon.Split(canon.Of(got))), canon.String(canon.Split(canon.Of(wantSelf))))
+		}
+		// a section shared by reference between destination and source
+		d, _ := ucfg.NewFrom(lc.X.Go())
+		src, scp := ucfg.New(), ucfg.New()
+		shared := false
+		for i, k := range lc.X.Keys {
+			if lc.X.Vals[i].K != "obj" {
+				continue
+			}
+			ch, err := d.Child(k, -1)
+			if err != nil {
+				continue
+			}
+			ind, err := ucfg.NewFrom(lc.X.Vals[i].Go())
+			if err != nil {
+				return err
+			}
+			if src.SetChild(k, -1, ch) == nil && scp.SetChild(k, -1, ind) == nil {
+				shared = true
+			}
+		}
+		if shared {
+			if err := uc.Safe("Merge", func() error { return d.Merge(src, opts...) }); err != nil {
+				return fmt.Errorf("X.Merge(config sharing sections with X, %v): %v", lc.Policy, err)
+			}
+			// the expectation: merging an independent copy of what the source holds
+			cp, _ := ucfg.NewFrom(lc.X.Go())
+			if err := cp.Merge(scp, opts...); err != nil {
+				return err
+			}
+			wantShared, err := uc.Dump(cp)
+			if err != nil {
+				return err
+			}
+			if got, err = uc.Dump(d); err != nil {
+				return err
+			}
+			if !canon.EqualSplit(got, wantShared) {
+				return fmt.Errorf("X.Merge(config sharing sections with X by SetChild, %v) differs from merging an independent copy:\n got  %s\n want %s", lc.Policy, canon.String(canon.Split(canon.Of(got))), canon.String(canon.Split(canon.Of(wantShared))))
+			}
+			r.Class("merge of a config sharing sections with the destination")
+		}
+	}
 	// 3. append / prepend: the length is the sum and both operands keep their order. The operands are
 	// the list X (if it is one, else a list drawn from its values) and the list Y, placed under Path.
 	if lc.Policy == model.Append || lc.Policy == model.Prepend {
@@ -405,7 +465,7 @@ func runLaw(lc LawCase, r *runlog.R) error {
 
 var subLaws = runlog.Register(&runlog.Sub[LawCase]{
 	Name: "merge-laws",
-	Rule: "random tree X and list Y: X.Merge(empty) and empty.Merge(X) are identities for four kinds of empty source and every policy; X.Merge(X) (same pointer and equal copy) is the identity under default/replace/replace-arr; under append/prepend two lists nested under a random key path combine to A++B / B++A element for element. Non-trivial: both list operands non-empty (append/prepend) or X nested at least two levels (other policies).",
+	Rule: "random tree X and list Y: X.Merge(empty) and empty.Merge(X) are identities for four kinds of empty source and every policy; X.Merge(X) (same pointer and equal copy) is the identity under default/replace/replace-arr, and under every policy X.Merge(X) and X.Merge(config sharing sections with X by SetChild) equal the merge of an independent copy; under append/prepend two lists nested under a random key path combine to A++B / B++A element for element. Non-trivial: both list operands non-empty (append/prepend) or X nested at least two levels (other policies).",
 	Gen:  genLaw,
 	Run:  runLaw,
 })
